@@ -51,6 +51,7 @@ type world struct {
 	slash         *slashWorld
 	lastBlockTxs  [][]byte
 	lastNonce     map[string]uint64
+	msig          *multisig
 	daoMint       map[string]uint64 // DAO transfers that mint: tx bytes -> amount
 	mintedInBlock uint64
 	cur           *node // node whose process the simulator is currently "inside"
@@ -208,6 +209,9 @@ func (w *world) buildGenesis(nVals int) {
 				}
 			}
 		}
+	}
+	if c.Prop == "C05" {
+		w.multisigGenesis()
 	}
 	for i, kind := range []string{"ed25519", "ethsecp"} {
 		a := addActor(kind, fmt.Sprintf("mallory%d", i), false)
